@@ -17,6 +17,12 @@ let nat_of_int n =
   !tbl.(n)
 let rec int_of_nat = function O -> 0 | S n -> 1 + int_of_nat n
 let () =
+  if Array.length Sys.argv > 1 && Sys.argv.(1) = "static" then begin
+    (* static facts about the translated entry points {macro, direct process(), fatal macro} *)
+    Printf.printf "family_bracketed=%b full_family_guarded=%b direct_and_fatal_guarded=%b\n"
+      src_family_bracketed src_full_family_guarded src_direct_and_fatal_guarded;
+    exit 0
+  end;
   try while true do
     let line = input_line stdin in
     match List.filter (fun s -> s <> "") (String.split_on_char ' ' line) with
